@@ -180,32 +180,32 @@ Print Assumptions C05_h2_meta_wellformed_delivered.
 
 (* dataFrame.Append / headersFrame.Append are read back by ParseNext: same type and length, payload
    left in the reader *)
-Theorem C05_h3_frame_header_roundtrip : forall t l rest, l < 2 ^ 62 ->
+Theorem C05_h3_frame_header_roundtrip : forall body t l rest, l < 2 ^ 62 ->
   (t = h3FrameData \/ t = h3FrameHeaders) ->
   exists hb, h3_frame_header t l = Some hb /\
-    h3_parse_next (hb ++ rest) = (H3Ok (if t =? h3FrameData then H3Data l else H3Headers l), rest).
+    h3_parse_next_b body (hb ++ rest) = (H3Ok (if t =? h3FrameData then H3Data l else H3Headers l), rest).
 Proof. exact h3_frame_header_roundtrip. Qed.
 Print Assumptions C05_h3_frame_header_roundtrip.
 
 (* ... for every encoding of the two integers a peer may choose (minimal or not); reserved types
    (HTTP/2 leftovers 0x2, 0x6, 0x8, 0x9) are refused *)
-Theorem C05_h3_frame_header_any_encoding : forall et el t l rest, is_enc et t -> is_enc el l ->
-  (t = h3FrameData -> h3_parse_next (et ++ el ++ rest) = (H3Ok (H3Data l), rest)) /\
-  (t = h3FrameHeaders -> h3_parse_next (et ++ el ++ rest) = (H3Ok (H3Headers l), rest)) /\
-  (In t h3ReservedTypes -> h3_parse_next (et ++ el ++ rest) = (H3Err (H3Reserved t), rest)).
+Theorem C05_h3_frame_header_any_encoding : forall body et el t l rest, is_enc et t -> is_enc el l ->
+  (t = h3FrameData -> h3_parse_next_b body (et ++ el ++ rest) = (H3Ok (H3Data l), rest)) /\
+  (t = h3FrameHeaders -> h3_parse_next_b body (et ++ el ++ rest) = (H3Ok (H3Headers l), rest)) /\
+  (In t h3ReservedTypes -> h3_parse_next_b body (et ++ el ++ rest) = (H3Err (H3Reserved t), rest)).
 Proof. exact h3_frame_header_any_encoding. Qed.
 Print Assumptions C05_h3_frame_header_any_encoding.
 
 (* every other frame type (known-but-ignored, GREASE, extensions) is skipped with its payload *)
-Theorem C05_h3_unknown_frame_skipped : forall et el t p rest, is_enc et t -> is_enc el (lenN p) ->
+Theorem C05_h3_unknown_frame_skipped : forall body et el t p rest, is_enc et t -> is_enc el (lenN p) ->
   t <> h3FrameData -> t <> h3FrameHeaders -> t <> h3FrameSettings -> ~ In t h3ReservedTypes ->
-  h3_parse_next (et ++ el ++ p ++ rest) = h3_parse_next rest.
+  h3_parse_next_b body (et ++ el ++ p ++ rest) = h3_parse_next_b body rest.
 Proof. exact h3_unknown_frame_skipped. Qed.
 Print Assumptions C05_h3_unknown_frame_skipped.
 
-Theorem C05_h3_unknown_frame_truncated : forall et el t l rest, is_enc et t -> is_enc el l ->
+Theorem C05_h3_unknown_frame_truncated : forall body et el t l rest, is_enc et t -> is_enc el l ->
   t <> h3FrameData -> t <> h3FrameHeaders -> t <> h3FrameSettings -> ~ In t h3ReservedTypes ->
-  lenN rest < l -> h3_parse_next (et ++ el ++ rest) = (H3Err H3EOF, []).
+  lenN rest < l -> h3_parse_next_b body (et ++ el ++ rest) = (H3Err (trunc_err body), []).
 Proof. exact h3_unknown_frame_truncated. Qed.
 Print Assumptions C05_h3_unknown_frame_truncated.
 
@@ -213,15 +213,40 @@ Print Assumptions C05_h3_unknown_frame_truncated.
    complete skippable frames, then a type and a length in accepted encodings, then - for DATA / HEADERS -
    exactly the bytes left in the reader, or - for SETTINGS - a payload of the announced length within
    the cap that the settings loop accepts, followed by the bytes left *)
-Theorem C05_h3_parse_next_ok_inv : forall input f rest, h3_parse_next input = (H3Ok f, rest) ->
-  exists sk et el t l body, skipped_frames sk /\ is_enc et t /\ is_enc el l /\ input = sk ++ et ++ el ++ body /\
-    ((t = h3FrameData /\ f = H3Data l /\ rest = body) \/
-     (t = h3FrameHeaders /\ f = H3Headers l /\ rest = body) \/
+Theorem C05_h3_parse_next_ok_inv : forall body input f rest, h3_parse_next_b body input = (H3Ok f, rest) ->
+  exists sk et el t l bd, skipped_frames sk /\ is_enc et t /\ is_enc el l /\ input = sk ++ et ++ el ++ bd /\
+    ((t = h3FrameData /\ f = H3Data l /\ rest = bd) \/
+     (t = h3FrameHeaders /\ f = H3Headers l /\ rest = bd) \/
      (t = h3FrameSettings /\ l <= h3SettingsMaxLen /\
-      exists payload s, body = payload ++ rest /\ lenN payload = l /\
+      exists payload s, bd = payload ++ rest /\ lenN payload = l /\
                         h3_parse_settings_payload payload = H3Ok s /\ f = H3Settings s)).
 Proof. exact h3_parse_next_ok_inv. Qed.
 Print Assumptions C05_h3_parse_next_ok_inv.
+
+(* where the stream ends.  (body = the bodyStream flag: false on control streams and for the first
+   frame of a response, true while a message body is read.)  A stream that ends right behind complete
+   skipped frames is a clean io.EOF in both modes ... *)
+Theorem C05_h3_skipped_then_end : forall body input, skipped_frames input ->
+  h3_parse_next_b body input = (H3Err H3EOF, []).
+Proof. exact h3_skipped_then_end. Qed.
+Print Assumptions C05_h3_skipped_then_end.
+
+(* ... and on a body stream a clean io.EOF means exactly that (SETTINGS frames, which do not belong
+   there, report their own short payload as io.EOF): a cut inside a frame is never a clean end *)
+Theorem C05_h3_body_eof_inv : forall input r, h3_parse_next_b true input = (H3Err H3EOF, r) ->
+  skipped_frames input \/
+  exists sk et el l bd, skipped_frames sk /\ is_enc et h3FrameSettings /\ is_enc el l /\
+    input = sk ++ et ++ el ++ bd /\ fst (h3_parse_settings_frame bd l) = H3Err H3EOF.
+Proof. exact h3_body_eof_inv. Qed.
+Print Assumptions C05_h3_body_eof_inv.
+
+(* the flag changes nothing else: same frames and bytes left, same errors up to EOF / UnexpectedEOF
+   (quic-go, which has no such flag, is the body = false column) *)
+Theorem C05_h3_body_flag_only_renames_eof : forall input,
+  same_up_to_eof (fst (h3_parse_next_b false input)) (fst (h3_parse_next_b true input)) /\
+  (forall f, fst (h3_parse_next_b false input) = H3Ok f -> h3_parse_next_b false input = h3_parse_next_b true input).
+Proof. exact h3_body_flag_only_renames_eof. Qed.
+Print Assumptions C05_h3_body_flag_only_renames_eof.
 
 (* SETTINGS payloads: a sequence of (id, value) pairs in any accepted encoding is accepted iff no
    identifier occurs twice and the two boolean settings (ENABLE_CONNECT_PROTOCOL, H3_DATAGRAM) are
@@ -239,24 +264,24 @@ Print Assumptions C05_h3_settings_accept_iff.
 (* settingsFrame.Append then ParseNext, for every duplicate-free map of unrecognised settings written
    in any iteration order, both flags, anything following: read back exactly, as long as the payload
    is within the parser's own 8 KiB cap (beyond it the fork refuses its own frame) *)
-Theorem C05_h3_settings_roundtrip : forall d e order rest,
+Theorem C05_h3_settings_roundtrip : forall body d e order rest,
   NoDup (map fst order) -> Forall other_pair_ok order ->
   exists l, h3_settings_len d e order = Some l /\
     (l < 2 ^ 62 -> exists b, h3_settings_append d e order = Some b /\
        (l <= h3SettingsMaxLen ->
-          h3_parse_next (b ++ rest) = (H3Ok (H3Settings (mk_settings d e order)), rest)) /\
-       (h3SettingsMaxLen < l -> fst (h3_parse_next (b ++ rest)) = H3Err (H3SettingsTooLarge l))).
+          h3_parse_next_b body (b ++ rest) = (H3Ok (H3Settings (mk_settings d e order)), rest)) /\
+       (h3SettingsMaxLen < l -> fst (h3_parse_next_b body (b ++ rest)) = H3Err (H3SettingsTooLarge l))).
 Proof. exact h3_settings_roundtrip. Qed.
 Print Assumptions C05_h3_settings_roundtrip.
 
-Theorem C05_h3_settings_order_irrelevant : forall d e o1 o2 rest,
+Theorem C05_h3_settings_order_irrelevant : forall body d e o1 o2 rest,
   Permutation o1 o2 -> NoDup (map fst o1) -> Forall other_pair_ok o1 ->
   exists l b1 b2, h3_settings_len d e o1 = Some l /\ h3_settings_len d e o2 = Some l /\
     (l <= h3SettingsMaxLen ->
       h3_settings_append d e o1 = Some b1 /\ h3_settings_append d e o2 = Some b2 /\
       lenN b1 = lenN b2 /\
-      h3_parse_next (b1 ++ rest) = (H3Ok (H3Settings (mk_settings d e o1)), rest) /\
-      h3_parse_next (b2 ++ rest) = (H3Ok (H3Settings (mk_settings d e o2)), rest)).
+      h3_parse_next_b body (b1 ++ rest) = (H3Ok (H3Settings (mk_settings d e o1)), rest) /\
+      h3_parse_next_b body (b2 ++ rest) = (H3Ok (H3Settings (mk_settings d e o2)), rest)).
 Proof. exact h3_settings_order_irrelevant. Qed.
 Print Assumptions C05_h3_settings_order_irrelevant.
 
